@@ -3,6 +3,7 @@
 #![allow(dead_code, unused_imports, unused_variables)]
 
 mod common;
+mod conc;
 mod explore;
 mod gate;
 mod model;
